@@ -16,15 +16,17 @@ CLAIMED = {
  "C02": dict(level="model_checking",
    text="MIRInsn.tla (with W64/FPx value domains) transcribes MIR.md instruction by instruction; TLC evaluates every integer/FP opcode, "
         "load/store type, compare-and-branch and overflow-flag branch over a boundary grid (complete for the stated grid), and each row is "
-        "replayed through one-instruction functions in every operand shape (reg, imm, memory with base/disp/index*scale, dst==src aliasing, "
-        "constant operands, flag state before an overflow insn) on the interpreter and on code generated at the optimisation levels.",
+        "replayed through one-instruction functions in every operand shape (reg, imm, memory with base/disp/index*scale, 64-bit register "
+        "against 32-bit memory operand, dst==src aliasing, constant operands, flag state before an overflow insn; all 36 chains of two "
+        "extension insns) on the interpreter and on code generated at the optimisation levels.",
    note="Trusted: TLC, the W64/FPx modules (cross-checked against big integers by tools/w64_selfcheck.py), gcc host arithmetic only for FP results "
         "the exact domain reports inexact. Undefined cases (shift counts, division by zero, INT_MIN/-1, FP->int range) are not replayed.",
    technique="TLA+ instruction semantics evaluated by TLC as a complete table; table rows replayed into interpreter and generated code",
    design="DESIGN.md §4 C02, §3.1"),
  "C01": dict(level="model_checking",
-   text="MIRProg.tla builds well-formed MIR programs nondeterministically (templates over the instruction vocabulary incl. irreducible control flow, "
-        "switch, laddr/jmpi, alloca, calls, overflow insns, f/d/ld arithmetic) and MIRSem.tla executes them; TLC simulation yields programs whose "
+   text="MIRProg.tla builds well-formed MIR programs nondeterministically (about 80 templates over the instruction vocabulary: irreducible control flow, "
+        "switch, laddr/jmpi and label-reference items, self loops, alloca and bstart/bend, direct/indirect/variadic/callback calls, block arguments, "
+        "overflow insns, f/d/ld arithmetic, addr insns, global variables tied to hard registers, data/bss/ref sections, absolute addressing) and MIRSem.tla executes them; TLC simulation yields programs whose "
         "run is defined, with their observations. Each is run under the interpreter and generated code at -O0..-O3; any difference from the "
         "interpreter in result, caller-visible memory or external-call log is a violation.",
    note="The specification certifies well-definedness (division, shifts, uninitialised reads, address-dependent values, undefined upper halves of "
@@ -100,7 +102,9 @@ CLAIMED = {
  "C20": dict(level="model_checking",
    text="Programs and their well-definedness come from MIRProg.tla/MIRSem.tla restricted to functions with at most one result; every well-defined "
         "program is translated by MIR_module2c (must terminate), compiled by gcc (must be accepted), run, and its result, caller-owned memory and "
-        "external-call log compared with MIR_interp (and the spec).",
+        "external-call log compared with MIR_interp (and the spec). In addition the complete C02 instruction table (C02Table.tla: every "
+        "integer/FP opcode, load/store type and branch x boundary grid, chains of two extensions) is replayed through the translator in every "
+        "operand shape: the compiled C must give the value the specification gives (about 300k executions in quick).",
    note="Translation compiled with gcc -O0 -fwrapv -fno-strict-aliasing so that C-level signed-overflow UB in the emitted code is not exploited; "
         "sampled by TLC simulation.",
    technique="TLA+ abstract machine + program constructor; TLC behaviours replayed through mir2c+gcc vs the interpreter",
